@@ -22,11 +22,17 @@ struct Args {
     make_assign: bool,
 }
 impl Args {
-    fn from_attr_args(attr: TokenStream, op: Op) -> Result<Args> {
-        let args: ArgList = parse2(attr)?;
+    fn from_attr_args(attrs: Vec<TokenStream>, op: Op) -> Result<Args> {
         let mut make_binary = false;
         let mut make_assign = false;
-        for item in &args.items {
+        let mut dump = false;
+        let mut items = Vec::new();
+        for attr in attrs {
+            let args: ArgList = parse2(attr)?;
+            dump |= args.dump;
+            items.extend(args.items);
+        }
+        for item in &items {
             let target_op = Op::from_ident(item)?;
             if target_op.op != op.op {
                 bail!(
@@ -42,7 +48,7 @@ impl Args {
             }
         }
         Ok(Self {
-            dump: args.dump,
+            dump,
             make_binary,
             make_assign,
         })
@@ -109,7 +115,25 @@ enum OpForm {
     Assign,
 }
 
-pub fn build_by_item_impl(attr: TokenStream, item_impl: &ItemImpl) -> Result<TokenStream> {
+pub fn build_by_item_impl(attr: TokenStream, item_impl: &mut ItemImpl) -> Result<TokenStream> {
+    // Sibling `#[derive_ex(..)]` attributes on the impl are part of the same request (as on a struct or enum):
+    // `Add` and `AddAssign` asked for in two attributes mean the same as in one.
+    let mut attrs = vec![attr];
+    let mut error = None;
+    item_impl.attrs.retain(|a| {
+        if !crate::item_type::is_root_derive_ex_attr(a) {
+            return true;
+        }
+        match a.meta.require_list() {
+            Ok(list) => attrs.push(list.tokens.clone()),
+            Err(e) => error = Some(e),
+        }
+        false
+    });
+    if let Some(e) = error {
+        return Err(e);
+    }
+    let item_impl = &*item_impl;
     let span = Span::call_site();
     let message = "must be used with `impl {Trait} for {Type}`";
     let t = item_impl
@@ -132,7 +156,7 @@ pub fn build_by_item_impl(attr: TokenStream, item_impl: &ItemImpl) -> Result<Tok
     let (impl_g, _, where_g) = &g.split_for_impl();
 
     let op = Op::from_ident(&s.ident)?;
-    let args = Args::from_attr_args(attr, op)?;
+    let args = Args::from_attr_args(attrs, op)?;
 
     let binary_op = Op::new(op.op, OpForm::Binary);
     let binary_func = binary_op.to_func_ident();
